@@ -168,6 +168,16 @@ func rcHist(h []porcupine.Operation) []string {
 // must have reached the newest snapshot, both snapshot lists must be empty and
 // exactly `live` nodes may remain.
 func c08CheckCollector(c *rt.C, db *DB, live int, witness interface{}) {
+	// The callers closed their last snapshots one after the other from one goroutine: each of those
+	// Close calls triggers a collection pass that nobody competes with, so the frontier must already
+	// have reached the newest snapshot before any explicit GC().
+	if Quiesce(db.N) {
+		if last, cur := db.N.GetLastGCSn(), db.N.GetCurrSn(); last != cur-1 {
+			open, retired := db.N.VerifSnapshotLists()
+			c.Violate("collector-needs-explicit-gc", fmt.Sprintf("the last snapshots were closed sequentially (each Close triggers a collection pass) but GetLastGCSn()=%d < newest snapshot %d before any explicit GC() (open list %d, retired list %d): an earlier retired snapshot is never picked up by later Closes", last, cur-1, open, retired), witness)
+			return
+		}
+	}
 	db.N.GC()
 	if !Quiesce(db.N) {
 		c.Inconclusive("quiescence probe did not settle")
@@ -395,6 +405,102 @@ func c08Backup(c *rt.C) {
 	c.Sample(witness)
 }
 
+// c08ManyRetired: the oldest snapshot stays open while hundreds of newer ones are fully released;
+// closing it makes one collection pass hand over all their garbage lists at once (more than the
+// collection queue holds).
+func c08ManyRetired(c *rt.C) {
+	r := c.Rng
+	db := OpenDB(DBOpt{Mem: []string{"go", "poison"}[c.Index%2]})
+	w := db.N.NewWriter()
+	n := pick(r, 300, 700, 1500)
+	for i := 0; i < 100; i++ {
+		w.Put(KeyBytes(i))
+	}
+	live := 100
+	oldest, _ := db.N.NewSnapshot()
+	var snaps []*nitro.Snapshot
+	for i := 0; i < n; i++ {
+		if i < 60 {
+			w.Delete(KeyBytes(i))
+			live--
+		}
+		s, _ := db.N.NewSnapshot()
+		snaps = append(snaps, s)
+	}
+	order := pick(r, 0, 1, 2)
+	switch order {
+	case 0: // newest first
+		for i := len(snaps) - 1; i >= 0; i-- {
+			snaps[i].Close()
+		}
+	case 1:
+		for _, s := range snaps {
+			s.Close()
+		}
+	default:
+		r.Shuffle(len(snaps), func(i, j int) { snaps[i], snaps[j] = snaps[j], snaps[i] })
+		for _, s := range snaps {
+			s.Close()
+		}
+	}
+	oldest.Close() // one pass now has n+1 lists to hand over
+	c.Evals(1)
+	c.Sig("many-retired/n=%d/order=%d", n, order)
+	witness := map[string]interface{}{"retired_behind_the_oldest": n, "close_order": []string{"newest-first", "oldest-first", "random"}[order]}
+	c08CheckCollector(c, db, live, witness)
+	c.Sample(witness)
+}
+
+// c08MissedWakeup: a collection pass has finished its walk but still holds the collector flag when
+// another goroutine closes the next snapshot (its own GC() attempt fails the try-lock). Later
+// snapshots closed one after the other must still get everything collected.
+func c08MissedWakeup(c *rt.C) {
+	db := OpenDB(DBOpt{Mem: "go"})
+	w := db.N.NewWriter()
+	for i := 0; i < 40; i++ {
+		w.Put(KeyBytes(i))
+	}
+	live := 40
+	var snaps []*nitro.Snapshot
+	for i := 0; i < 4; i++ {
+		w.Delete(KeyBytes(i))
+		live--
+		s, _ := db.N.NewSnapshot()
+		snaps = append(snaps, s)
+	}
+	parked := make(chan struct{})
+	resume := make(chan struct{})
+	var once sync.Once
+	nitro.VerifSetHook(func(id int, arg unsafe.Pointer) {
+		if id == nitro.VpGCLeaving {
+			once.Do(func() {
+				close(parked)
+				<-resume
+			})
+		}
+	})
+	defer nitro.VerifSetHook(nil)
+	done := make(chan struct{})
+	go func() { snaps[0].Close(); close(done) }() // its pass collects snapshot 1 and parks before dropping the flag
+	select {
+	case <-parked:
+	case <-done:
+		c.Inconclusive("hook point in GC never reached")
+		return
+	}
+	snaps[1].Close() // retired, but its GC() finds the collector flag taken
+	close(resume)
+	<-done
+	nitro.VerifSetHook(nil)
+	snaps[2].Close()
+	snaps[3].Close()
+	c.Evals(1)
+	c.Sig("missed-wakeup")
+	witness := map[string]interface{}{"schedule": "Close(s1)'s collection pass parked before dropping the collector flag; Close(s2) meanwhile; then Close(s3), Close(s4) sequentially"}
+	c08CheckCollector(c, db, live, witness)
+	c.Sample(witness)
+}
+
 func interleavingSigRC(h []porcupine.Operation) string {
 	var hs uint64 = 1469598103934665603
 	type ev struct {
@@ -423,7 +529,7 @@ func init() {
 	rt.Register(&rt.Prop{
 		ID: "C08", Level: "exploration",
 		Technique: "runtime monitoring: deterministic rendezvous schedules through the Open/Close hook points + stress histories checked with porcupine against a reference-count model; collector progress reconciled at quiescence",
-		Rule: "cases 0-1: directed schedules (A passes Open's zero test and parks, B performs the final Close, A resumes; and the mirror image with B parked right after its decrement) — deterministic, replay exactly. cases 2-9: StoreToDisk (delta on/off, caller keeping its own reference or not, an older snapshot open or not) consumes a reference — afterwards the snapshot must be retired exactly once (still listed while the caller's reference lives, Open fails after, collector reaches every later snapshot). Other cases: 2-32 goroutines race Open / NewIterator / Close / Iterator.Close around the final close of 1-8 snapshots with perturbation at the hook points; every snapshot's history is checked against the refcount model (Open true iff count>0), Open/NewIterator must fail afterwards, then 3 new epochs are created and closed and GC() at quiescence must bring GetLastGCSn to the newest snapshot, empty both snapshot lists and leave exactly the live items. " +
+		Rule: "cases 0-1: directed schedules (A passes Open's zero test and parks, B performs the final Close, A resumes; and the mirror image with B parked right after its decrement) — deterministic, replay exactly. cases 2-9: StoreToDisk (delta on/off, caller keeping its own reference or not, an older snapshot open or not) consumes a reference — afterwards the snapshot must be retired exactly once (still listed while the caller's reference lives, Open fails after, collector reaches every later snapshot). cases 10-13: the oldest snapshot stays open while 300-1500 newer ones are released, then it is closed (one collection pass hands over more garbage lists than the queue holds); case 14: a collection pass parked right before it drops the collector flag while the next snapshot is closed, then two more closed sequentially — the frontier must reach the newest snapshot without an explicit GC(). Other cases: 2-32 goroutines race Open / NewIterator / Close / Iterator.Close around the final close of 1-8 snapshots with perturbation at the hook points; every snapshot's history is checked against the refcount model (Open true iff count>0), Open/NewIterator must fail afterwards, then 3 new epochs are created and closed and GC() at quiescence must bring GetLastGCSn to the newest snapshot, empty both snapshot lists and leave exactly the live items. " +
 			"evaluations = histories checked; distinct = per-snapshot interleaving signatures",
 		Assumptions: []string{"every goroutine closes only references it holds (a client double-close is not judged)", "porcupine v1.3.0 trusted as checker"},
 		Cases: func(t string) int {
@@ -442,6 +548,14 @@ func init() {
 			}
 			if c.Index < 10 {
 				c08Backup(c)
+				return
+			}
+			if c.Index < 14 {
+				c08ManyRetired(c)
+				return
+			}
+			if c.Index == 14 {
+				c08MissedWakeup(c)
 				return
 			}
 			c08Stress(c)
